@@ -511,11 +511,7 @@ func (P *Prog) checkSegmentSource(r *Result) {
 					okKey, okTag := false, false
 					var judge func(v ssa.Value, depth int)
 					judge = func(v ssa.Value, depth int) {
-						if iv, undo := resultThroughCallee(v); iv != v {
-							if depth < 3 {
-								judge(iv, depth+1)
-							}
-							undo()
+						if depth < 3 && forEachCalleeResult(v, func(iv ssa.Value) { judge(iv, depth+1) }) {
 							return
 						}
 						if valueDerivesFrom(v, l.key, 8) {
@@ -632,6 +628,59 @@ func resultThroughCallee(v ssa.Value) (ssa.Value, func()) {
 	}
 	substEnv = env
 	return cv(vals[idx]), func() { substEnv = saved }
+}
+
+// forEachCalleeResult: like resultThroughCallee for a callee with any number of returns: f is called with the
+// value returned at each of them, under the callee's parameter bindings. false when v is not such a result.
+func forEachCalleeResult(v ssa.Value, f func(iv ssa.Value)) bool {
+	idx := 0
+	var call *ssa.Call
+	switch x := cv(v).(type) {
+	case *ssa.Extract:
+		c, ok := x.Tuple.(*ssa.Call)
+		if !ok {
+			return false
+		}
+		call, idx = c, x.Index
+	case *ssa.Call:
+		call = x
+	default:
+		return false
+	}
+	ci := callOf(call)
+	if ci.static == nil || ci.static.Blocks == nil || !inModule(funcPkgPath(ci.static)) {
+		return false
+	}
+	callee := ci.static
+	if callee.Parent() == nil && !formulaHelper(callee) {
+		return false
+	}
+	saved := substEnv
+	env := map[ssa.Value]ssa.Value{}
+	for k, v2 := range saved {
+		env[k] = v2
+	}
+	for k, prm := range callee.Params {
+		if k < len(call.Call.Args) {
+			env[prm] = call.Call.Args[k]
+		}
+	}
+	n := 0
+	eachInstr(callee, func(_ *ssa.BasicBlock, _ int, in ssa.Instruction) {
+		rt, ok := in.(*ssa.Return)
+		if !ok {
+			return
+		}
+		vals, ok := retVals(rt)
+		if !ok || idx >= len(vals) {
+			return
+		}
+		n++
+		substEnv = env
+		f(cv(vals[idx]))
+		substEnv = saved
+	})
+	return n > 0
 }
 
 // valueDerivesFrom: v equals x or is a load of a local that was stored x.
@@ -1044,46 +1093,81 @@ func (P *Prog) checkIssuePathLast(r *Result) {
 	r.sawFunc(fname(fn))
 	pathF := structField(R.ZogIssue, "Path")
 	ipF := structField(R.Test, "IssuePath")
-	var override *ssa.Store
-	var stores []*ssa.Store
-	eachInstr(fn, func(_ *ssa.BasicBlock, _ int, in ssa.Instruction) {
-		st, ok := in.(*ssa.Store)
-		if !ok {
-			return
+	// On the decision paths of IssueFromTest (helpers and the closures it hands to them entered): the stores to the
+	// issue's Path, the calls of a test formatter, and the test `IssuePath != ""`.
+	fmtF := structField(R.Test, "IssueFmtFunc")
+	spec := &pathSpec{name: "issuepath-last", inlineAll: true}
+	spec.keep = func(f *ssa.Function) bool { return !inModule(funcPkgPath(f)) }
+	spec.cond = func(iff *ssa.If) (string, string, string) {
+		bo, ok := cv(iff.Cond).(*ssa.BinOp)
+		if !ok || (bo.Op != token.NEQ && bo.Op != token.EQL) {
+			return "", "", ""
 		}
-		if _, f := fieldVar(st.Addr); f != nil && sameField(f, pathF) {
-			stores = append(stores, st)
-			if _, vf := loadOfField(cv(st.Val)); vf != nil && sameField(vf, ipF) {
-				override = st
+		if _, f := loadOfField(cv(bo.X)); f == nil || !sameField(f, ipF) || !isEmptyString(bo.Y) {
+			return "", "", ""
+		}
+		if bo.Op == token.NEQ {
+			return "HAS-ISSUEPATH", "T", "F"
+		}
+		return "HAS-ISSUEPATH", "F", "T"
+	}
+	spec.events = func(in ssa.Instruction) []pathItem {
+		switch x := in.(type) {
+		case *ssa.Store:
+			if _, f := fieldVar(cv(x.Addr)); f != nil && sameField(f, pathF) {
+				if _, vf := loadOfField(cv(x.Val)); vf != nil && sameField(vf, ipF) {
+					return []pathItem{{kind: "PATH", val: "override", in: in}}
+				}
+				return []pathItem{{kind: "PATH", val: "other", in: in}}
 			}
-		}
-	})
-	var problems []string
-	if override == nil {
-		problems = append(problems, "the test's IssuePath is never written to the issue")
-	} else {
-		guarded := false
-		for _, gd := range guardsOf(override.Block()) {
-			if bo, ok := gd.If.Cond.(*ssa.BinOp); ok && (bo.Op == token.NEQ && gd.True || bo.Op == token.EQL && !gd.True) {
-				if _, f := loadOfField(cv(bo.X)); f != nil && sameField(f, ipF) && isEmptyString(bo.Y) {
-					guarded = true
+		default:
+			if ci := callOf(in); ci != nil && ci.dynamic {
+				if _, f := loadOfField(cv(ci.instr.Common().Value)); f != nil && sameField(f, fmtF) {
+					return []pathItem{{kind: "FMT", in: in}}
 				}
 			}
 		}
-		if !guarded {
-			problems = append(problems, "the IssuePath override is not applied exactly when IssuePath != \"\"")
+		return nil
+	}
+	res := P.enumPathsSpec(fn, nil, spec)
+	var problems []string
+	if res.capHit {
+		problems = append(problems, "too many paths to enumerate")
+	}
+	sawOverride := false
+	for _, p := range res.paths {
+		if !strings.HasPrefix(p.end, "RETURN") {
+			continue
 		}
-		for _, st := range stores {
-			if st != override && (instrBefore(override, st) || reachFromSuccs(override.Block(), nil)[st.Block()]) {
-				problems = append(problems, "the issue's path is written again after the IssuePath override")
+		has, tested := false, false
+		lastPath, lastFmt, overrideAt := "", -1, -1
+		for i, it := range p.items {
+			switch it.kind {
+			case "HAS-ISSUEPATH":
+				tested, has = true, it.val == "T"
+			case "PATH":
+				lastPath = it.val
+				if it.val == "override" {
+					overrideAt = i
+					sawOverride = true
+				}
+			case "FMT":
+				lastFmt = i
 			}
 		}
-		// the user formatter (which may also touch the path) must run before the override
-		eachInstr(fn, func(_ *ssa.BasicBlock, _ int, in ssa.Instruction) {
-			if ci := callOf(in); ci != nil && ci.dynamic && (instrBefore(override, in) || reachFromSuccs(override.Block(), nil)[in.Block()]) {
-				problems = append(problems, "a formatter runs after the IssuePath override and could replace the path")
-			}
-		})
+		switch {
+		case overrideAt >= 0 && !(tested && has):
+			problems = append(problems, "the IssuePath override is not applied exactly when IssuePath != \"\"  [path: "+p.String()+"]")
+		case tested && has && overrideAt < 0:
+			problems = append(problems, "a non-empty IssuePath is not written to the issue  [path: "+p.String()+"]")
+		case overrideAt >= 0 && lastPath != "override":
+			problems = append(problems, "the issue's path is written again after the IssuePath override  [path: "+p.String()+"]")
+		case overrideAt >= 0 && lastFmt > overrideAt:
+			problems = append(problems, "a formatter runs after the IssuePath override and could replace the path  [path: "+p.String()+"]")
+		}
+	}
+	if !sawOverride {
+		problems = append(problems, "the test's IssuePath is never written to the issue")
 	}
 	if len(problems) > 0 {
 		r.bad("C10/issuepath-last", fname(fn), P.pos(fn.Pos()), strings.Join(uniqSorted(problems), "; "))
@@ -1119,7 +1203,11 @@ func (P *Prog) checkSanitizeAgreement(r *Result) {
 					// list stored under the visited key
 					ai := -1
 					for k, a := range c.Call.Args {
-						if valueDerivesFrom(a, l.val, 4) {
+						if l.val != nil && valueDerivesFrom(a, l.val, 4) {
+							ai = k
+						}
+						// (or m[k] looked up again for the visited key k)
+						if lk, isLk := cv(a).(*ssa.Lookup); isLk && !lk.CommaOk && cv(lk.X) == cv(l.rng.X) && valueDerivesFrom(lk.Index, l.key, 4) {
 							ai = k
 						}
 					}
@@ -1525,6 +1613,42 @@ func (P *Prog) freshPooled(v ssa.Value, depth int) bool {
 		return n > 0 && all
 	case *ssa.Parameter:
 		g := x.Parent()
+		// a parameter of a closure that is handed to a module function as a callback: fresh when every call
+		// of that callback inside the function passes a fresh object
+		// (`c.newIssue(func(e *ZogIssue) { ...; e.Path = test.IssuePath })` with newIssue calling `fill(e)`)
+		if g.Parent() != nil {
+			idx := -1
+			for i, q := range g.Params {
+				if q == x {
+					idx = i
+				}
+			}
+			n, all := 0, true
+			eachInstr(g.Parent(), func(_ *ssa.BasicBlock, _ int, in ssa.Instruction) {
+				ci := callOf(in)
+				if ci == nil || ci.static == nil || ci.static.Blocks == nil || !inModule(funcPkgPath(ci.static)) {
+					return
+				}
+				for k, a := range ci.args() {
+					mc, ok := cv(a).(*ssa.MakeClosure)
+					if !ok || mc.Fn != ssa.Value(g) || k >= len(ci.static.Params) {
+						continue
+					}
+					cb := ssa.Value(ci.static.Params[k])
+					eachInstr(ci.static, func(_ *ssa.BasicBlock, _ int, in2 ssa.Instruction) {
+						c2 := callOf(in2)
+						if c2 == nil || !c2.dynamic || cv(c2.instr.Common().Value) != cb {
+							return
+						}
+						n++
+						if idx < 0 || idx >= len(c2.args()) || !P.freshPooled(c2.args()[idx], depth+1) {
+							all = false
+						}
+					})
+				}
+			})
+			return n > 0 && all
+		}
 		sites, closed := P.closedCallSites(g)
 		if !closed || len(sites) == 0 {
 			return false
